@@ -584,7 +584,19 @@ impl Inst for FfiInst {
 
 pub fn gen_input(r: &mut Rng, n: usize) -> Vec<u8> {
     let mut v = Vec::with_capacity(n + 16);
-    match r.below(5) {
+    match r.below(6) {
+        5 => {
+            // Fibonacci-skewed byte histogram (k = 16..24 symbols, counts ~ F(i)): the optimal prefix code is deeper than
+            // the 14/15-bit limits, so BrotliBuildAndStoreHuffmanTreeFast / BrotliCreateHuffmanTree take their
+            // count_limit retry paths (scratch tree re-use / re-allocation on every attempt); shuffled, not sorted,
+            // so that literals stay literals
+            let k = 16 + r.below(9) as usize;
+            let mut w: Vec<u64> = vec![1, 1];
+            while w.len() < k { let l = w.len(); w.push(w[l - 1] + w[l - 2]); }
+            let total: u64 = w.iter().sum();
+            let base = r.next() as u8;
+            while v.len() < n { let mut x = r.below(total); let mut s = 0usize; while x >= w[s] { x -= w[s]; s += 1; } v.push(base.wrapping_add((s as u8).wrapping_mul(7))); }
+        }
         0 => { while v.len() < n { v.push(r.next() as u8); } }                      // incompressible
         1 => { v.resize(n, 0); }                                                    // zeros
         2 => { let w = 1 + r.below(300) as usize; let pat: Vec<u8> = (0..w).map(|_| r.next() as u8).collect(); while v.len() < n { v.extend_from_slice(&pat); } } // periodic
